@@ -324,7 +324,7 @@ PROPS["C36"] = {
                    "executor events this step preserves 'indexed balance = sum of unspent amounts'.",
     "bounds": "one event (CoinCreated / CoinConsumed / MessageImported / MessageConsumed, retryable or not) from any stored u128 "
               "balance or none, any u64 amount; owners and assets vary in one byte (equal or different keys)",
-    "outside": "the owned-coin / owned-message indexes (key insert/remove on real tables), the worker service that sequences the updates, "
+    "outside": "the owned-coin / owned-message indexes (key insert/remove on real tables), the worker service that sequences the updates (process_executor_events; only its per-event step update_event_based_indexation is covered), "
                "exactness of the executor's events (C02), sums above u128::MAX - u64::MAX (saturating add)",
     "assumptions": ["one event touches one balance key, so a one-slot-per-table transaction mock is faithful for a single step",
                     "storage reads/writes of the mock succeed"],
@@ -336,6 +336,10 @@ PROPS["C36"] = {
         H("c36_to_spend_step", ["fuel_core::graphql_api::indexation::coins_to_spend::update", "add_coin", "remove_coin", "add_message", "remove_message",
                                 "CoinsToSpendIndexKey::from_coin", "CoinsToSpendIndexKey::from_message"],
           "one coin/message event against the coins-to-spend index (entry present or absent), any u64 amount",
+          cuts=["alloc::fmt::format -> empty string", "Backtrace::capture -> disabled"]),
+        H("c36_event_flags", ["fuel_core::graphql_api::worker_service::update_event_based_indexation", _BAL + "update",
+                              "fuel_core::graphql_api::indexation::coins_to_spend::update"],
+          "one coin/message event through the worker's event-based indexation on an empty store, both enable flags symbolic",
           cuts=["alloc::fmt::format -> empty string", "Backtrace::capture -> disabled"]),
     ],
 }
